@@ -5,7 +5,7 @@ import pathlib
 
 import pandas
 
-from forml.provider.feed import alchemy
+from forml.provider.feed import alchemy, lazy, monolite  # noqa: F401 pylint: disable=unused-import
 
 from workloads import feeds
 
@@ -54,7 +54,9 @@ def read2(ctx, reads: list, schedule: list):
     from crashbox import threads  # pylint: disable=import-outside-toplevel
 
     _boot(ctx)
-    inter = threads.Interleaver(ctx['disk'], schedule)
+    inter = threads.Interleaver(ctx['disk'], schedule, trace_files=(
+        'forml/provider/feed/alchemy.py', 'forml/provider/feed/lazy.py', 'forml/provider/feed/reader/alchemy.py',
+        'forml/io/_input/_producer.py'))
     results = inter.run([lambda a=a: read(ctx, **a) for a in reads])
     return {'results': results, 'switches': inter.switches, 'decisions': inter.decisions}
 
